@@ -35,6 +35,7 @@ enum Op : int32_t {
   OP_COMM_SIZE = 1, OP_COMM_RANK, OP_ISEND, OP_IRECV, OP_ICOLL, OP_CANCEL, OP_LOG, OP_COMM_FREE,
   OP_TEST = 100, OP_WAITSOME, OP_WAIT, OP_COLL, OP_FINALIZE, OP_GATE
 };
+enum OpExtra : int32_t { OP_COMM_COMPARE = 20, OP_REQ_FREE = 21 };
 enum CollKind : int32_t { CK_BARRIER = 1, CK_ALLREDUCE, CK_ALLGATHER, CK_EXSCAN, CK_BCAST, CK_DUP, CK_SPLIT, CK_SCAN };
 
 struct Hdr { int32_t op; int32_t a[7]; uint64_t len; };
@@ -144,6 +145,12 @@ int MPI_Iallreduce(const void* s, void* r, int n, MPI_Datatype dt, MPI_Op op, MP
   int id = g_next_req++; g_reqs[id] = CReq{2, r, n * dtsize(dt)};
   call(OP_ICOLL, {c, CK_ALLREDUCE, dt, op, n, id}, s, n * dtsize(dt)); *rq = id; return MPI_SUCCESS; }
 int MPI_Ibarrier(MPI_Comm c, MPI_Request* rq) { int id = g_next_req++; g_reqs[id] = CReq{2, nullptr, 0}; call(OP_ICOLL, {c, CK_BARRIER, 0, 0, 0, id}, nullptr, 0); *rq = id; return MPI_SUCCESS; }
+int MPI_Comm_compare(MPI_Comm a, MPI_Comm b, int* res) { *res = call((Op)OP_COMM_COMPARE, {a, b}).h.a[0]; return MPI_SUCCESS; }
+// freeing the request of a send that has not completed leaves the buffer in MPI's hands for an unknown time; with a rendezvous /
+// synchronous send that is a use-after-free waiting to happen when the buffer is a local (the usual reason to free the request)
+int MPI_Request_free(MPI_Request* rq) { if (*rq == MPI_REQUEST_NULL) return MPI_SUCCESS; int done = call((Op)OP_REQ_FREE, {*rq}).h.a[0]; auto it = g_reqs.find(*rq);
+  if (it != g_reqs.end() && it->second.kind == 0 && !done) usage_error("MPI_Request_free on a send that has not completed: the send buffer must stay untouched for an unknown time");
+  g_reqs.erase(*rq); *rq = MPI_REQUEST_NULL; return MPI_SUCCESS; }
 int MPI_Cancel(MPI_Request* rq) { call(OP_CANCEL, {*rq}); g_reqs.erase(*rq); return MPI_SUCCESS; }
 int MPI_Get_count(const MPI_Status* st, MPI_Datatype dt, int* n) { *n = st->_count / (int)dtsize(dt); return MPI_SUCCESS; }
 int MPI_Test(MPI_Request* rq, int* flag, MPI_Status* st) {
@@ -289,6 +296,11 @@ struct Coord {
         q->seq = contribute(r, h.a[0], h.a[1], h.a[2], h.a[3], h.a[4], 0, pl);
         if (pl.size() == 16) { uint64_t v[2]; memcpy(v, pl.data(), 16); L("iallreduce r=%d comm=%d seq=%d v0=%llu v1=%llu", r, q->comm, q->seq, (unsigned long long)v[0], (unsigned long long)v[1]); } else L("icoll r=%d comm=%d seq=%d", r, q->comm, q->seq);
         reply(r, out); return true; }
+      case OP_COMM_COMPARE: { auto& A = comms[h.a[0]].members; auto& B = comms[h.a[1]].members; int v = 3;
+        if (h.a[0] == h.a[1]) v = 0; else if (A == B) v = 1; else { auto a2 = A, b2 = B; std::sort(a2.begin(), a2.end()); std::sort(b2.begin(), b2.end()); if (a2 == b2) v = 2; }
+        out.a[0] = v; reply(r, out); return true; }
+      case OP_REQ_FREE: { auto it = R.reqs.find(h.a[0]); int done = 1; if (it != R.reqs.end()) { Req& q = *it->second; done = (q.kind != 0) || q.done || (q.smsg->eager && !q.smsg->sync) || q.smsg->matched; R.reqs.erase(it); }
+        out.a[0] = done; reply(r, out); return true; }
       case OP_CANCEL: { auto it = R.reqs.find(h.a[0]); if (it != R.reqs.end()) { it->second->cancelled = true; R.posted.erase(std::remove(R.posted.begin(), R.posted.end(), it->second), R.posted.end()); R.reqs.erase(it); } reply(r, out); return true; }
       case OP_COLL: { int seq = contribute(r, h.a[0], h.a[1], h.a[2], h.a[3], h.a[4], h.a[5], pl); h.a[6] = seq; L("coll r=%d comm=%d kind=%d seq=%d", r, h.a[0], h.a[1], seq); return false; }
       default: return false;  // TEST WAITSOME WAIT FINALIZE: scheduled
